@@ -24,6 +24,7 @@ import (
 	"os"
 	"path/filepath"
 	"strconv"
+	"strings"
 	"testing"
 
 	corev1 "k8s.io/api/core/v1"
@@ -41,15 +42,48 @@ func TestVerifC10Quota(t *testing.T) {
 	base := c10CgroupBase(t)
 	const period, minQuota = int64(100000), int64(2000)
 	kit.Run(t, kit.Config{Property: "C10", Unit: "quota", Quick: 12000, Thorough: 300000,
-		Rule: "1-4 rounds of the real adjustByCfsQuota on one BE cgroup (temp cgroup-v1 root): node capacity 1-256 whole CPUs, previous quota unset (-1) or a value placed at/around target, target-1%, target+1%, target-10% (each -1/0/+1us) or random, budget boundary-biased (<0, 0, 19/20/21 milli = around the minimum quota, up to and above the capacity); oracle = statement's target with the documented bypass and step rules in integer arithmetic; distinct = (capacity class, previous-quota class, rule that applied, budget class); non-trivial = a case that saw at least two different rules apply",
+		Rule: "1-4 rounds of the real adjustByCfsQuota on one BE cgroup (temp cgroup-v1 root): node capacity 1-256 whole CPUs (7%: 384-1024), cgroup v1 75% / v2 25% (cpu.max, harness restores the period field after each write), previous quota unset (-1) or a value placed at/around target, target-1%, target+1%, target-10% (each -1/0/+1us) or random, budget boundary-biased (<0, 0, 19/20/21 milli = around the minimum quota, up to and above the capacity); oracle = statement's target with the documented bypass and step rules in integer arithmetic; distinct = (capacity class, previous-quota class, rule that applied, budget class); non-trivial = a case that saw at least two different rules apply",
 	}, func(c *kit.Case) {
 		r := c.R
 		root := filepath.Join(base, fmt.Sprintf("quota-%d", c.K))
 		system.Conf.CgroupRootDir = root
 		defer os.RemoveAll(root)
 		beDir := koordletutil.GetPodQoSRelativePath(corev1.PodQOSBestEffort)
-		file := system.GetCgroupFilePath(beDir, system.CPUCFSQuota)
-		capCPUs := int64(kit.Pick(r, []int{1, 2, 4, 8, 16, 32, 64, 80, 96, 128, 256, r.Range(1, 256), r.Range(1, 256)}))
+		// cgroup version: on v2 the quota lives in cpu.max ("<quota|max> <period>"); the code writes
+		// the quota alone and the kernel keeps the period - the harness plays the kernel after each
+		// write (normalise)
+		v2 := r.Pct(25)
+		system.UseCgroupsV2.Store(v2)
+		defer system.UseCgroupsV2.Store(false)
+		quotaRes, err := system.GetCgroupResource(system.CPUCFSQuotaName)
+		if err != nil {
+			c.Harness("cfs quota resource: %v", err)
+		}
+		file := quotaRes.Path(beDir)
+		render := func(q int64) string {
+			if !v2 {
+				return strconv.FormatInt(q, 10)
+			}
+			if q == -1 {
+				return "max 100000"
+			}
+			return strconv.FormatInt(q, 10) + " 100000"
+		}
+		parse := func(s string) (int64, bool) { // what the file means; ok=false if it is no quota at all
+			f := strings.Fields(s)
+			if len(f) == 0 || len(f) > 2 || (!v2 && len(f) != 1) {
+				return 0, false
+			}
+			if v2 && f[0] == "max" {
+				return -1, true
+			}
+			q, err := strconv.ParseInt(f[0], 10, 64)
+			return q, err == nil
+		}
+		if v2 {
+			c.Count("quota_cases_cgroup_v2", 1)
+		}
+		capCPUs := int64(kit.Pick(r, []int{1, 2, 4, 8, 16, 32, 64, 80, 96, 128, 256, r.Range(1, 256), r.Range(1, 256), r.Range(1, 256), kit.Pick(r, []int{384, 512, 1024})}))
 		node := &corev1.Node{ObjectMeta: metav1.ObjectMeta{Name: "n0"}, Status: corev1.NodeStatus{Capacity: corev1.ResourceList{corev1.ResourceCPU: *resource.NewQuantity(capCPUs, resource.DecimalSI)}}}
 		bypassDelta, stepMax := capCPUs*period/100, capCPUs*period/10
 		cs := &CPUSuppress{
@@ -97,6 +131,8 @@ func TestVerifC10Quota(t *testing.T) {
 			cur = tg - stepMax + off
 		case 5:
 			cur = minQuota
+		case 6: // set by somebody else to something huge
+			cur = kit.Pick(r, []int64{capCPUs * period * 100, 1 << 40})
 		default:
 			cur = int64(r.Range(1000, int(capCPUs*period*12/10)))
 		}
@@ -106,10 +142,10 @@ func TestVerifC10Quota(t *testing.T) {
 		if err := os.MkdirAll(filepath.Dir(file), 0o777); err != nil {
 			c.Harness("mkdir: %v", err)
 		}
-		if err := os.WriteFile(file, []byte(strconv.FormatInt(cur, 10)), 0o644); err != nil {
+		if err := os.WriteFile(file, []byte(render(cur)), 0o644); err != nil {
 			c.Harness("write: %v", err)
 		}
-		c.Op("capacity=%d CPUs (1%%=%dus 10%%=%dus) previous quota=%d", capCPUs, bypassDelta, stepMax, cur)
+		c.Op("cgroup-v2=%v capacity=%d CPUs (1%%=%dus 10%%=%dus) previous quota=%d", v2, capCPUs, bypassDelta, stepMax, cur)
 		rounds := r.Range(1, 4)
 		rules := map[string]bool{}
 		for k := 0; k < rounds; k++ {
@@ -126,9 +162,14 @@ func TestVerifC10Quota(t *testing.T) {
 			if err != nil {
 				c.Harness("read: %v", err)
 			}
-			got, err := strconv.ParseInt(string(b), 10, 64)
-			if err != nil {
-				c.Fail("C10/quota/unparsable", "round %d: cpu.cfs_quota_us holds %q", k, string(b))
+			got, ok := parse(string(b))
+			if !ok {
+				c.Fail("C10/quota/unparsable", "round %d: the quota file holds %q", k, string(b))
+			}
+			if v2 { // the kernel reports "<quota> <period>" whatever form was written
+				if err := os.WriteFile(file, []byte(render(got)), 0o644); err != nil {
+					c.Harness("write: %v", err)
+				}
 			}
 			c.Op("round %d -> quota=%d", k, got)
 			diff := tg - cur
